@@ -179,14 +179,34 @@ def run(ctx):
 
     # ---- R7 a file filter given on the command line is applied whatever its value (0 is a limit, not "absent") --------------
     sfo = P.func(MOD, "_setup_file_opts")
+
+    def truthiness_uses(fn_node, opt):
+        """places where the option's *truth value* decides something: `if ns.opt:`, `ns.opt and ...`, `not ns.opt`"""
+        out = []
+        for n in ast.walk(fn_node):
+            tests = []
+            if isinstance(n, (ast.If, ast.IfExp, ast.While)):
+                tests.append(n.test)
+            elif isinstance(n, ast.comprehension):
+                tests.extend(n.ifs)
+            for t in tests:
+                stack = [t]
+                while stack:
+                    e = stack.pop()
+                    if isinstance(e, ast.BoolOp):
+                        stack.extend(e.values)
+                    elif isinstance(e, ast.UnaryOp) and isinstance(e.op, ast.Not):
+                        stack.append(e.operand)
+                    elif isinstance(e, ast.Attribute) and e.attr == opt:
+                        out.append(n)
+        return out
     for opt in ("modified", "size"):
-        gs = [n for n in A.body_walk(sfo.node) if isinstance(n, ast.If) and any(isinstance(x, ast.Attribute) and x.attr == opt for x in ast.walk(n.test))]
-        ctx.check("R7", sfo, bool(gs), f"filter-guard-present:{opt}", f"the --{opt} filter is registered under a test on the option")
-        for n in gs:
-            ident = any(isinstance(c, ast.Compare) and isinstance(c.left, ast.Attribute) and c.left.attr == opt and isinstance(c.ops[0], (ast.IsNot, ast.Is)) and A.is_const(c.comparators[0], None) for c in ast.walk(n.test))
-            ctx.check("R7", sfo, ident, f"filter-guard-identity:{opt}", f"--{opt} counts as given unless it is None",
-                      f"the --{opt} filter is registered only when `{A.unparse(n.test)[:50]}` is truthy: a zero limit (`-s 0B`) parses to 0, the filter is dropped, and every selected distfile is "
-                      f"deleted although none passes the filter", node=n)
+        used = any(isinstance(x, ast.Attribute) and x.attr == opt for x in ast.walk(sfo.node))
+        ctx.check("R7", sfo, used, f"filter-option-used:{opt}", f"_setup_file_opts registers the --{opt} filter")
+        bad = truthiness_uses(sfo.node, opt)
+        ctx.check("R7", sfo, not bad, f"filter-guard-identity:{opt}", f"--{opt} counts as given unless it is None (its truth value decides nothing)",
+                  f"the --{opt} filter is registered only when the option is truthy (`{A.unparse(bad[0].test)[:50] if bad and hasattr(bad[0], 'test') else ''}`): a zero limit (`-s 0B`) parses to 0, "
+                  f"the filter is dropped, and every selected distfile is deleted although none passes the filter", node=bad[0] if bad else None)
     ctx.floor("R7", 4)
 
 
